@@ -61,7 +61,7 @@ type Interp struct {
 	mapNondet  bool
 
 	// exploration state
-	prefix  []int
+	prefix  []pfx
 	trace   []decisionRec
 	pc      []*Term
 	pcSet   map[int]bool
@@ -712,27 +712,6 @@ func (in *Interp) concInt(v Val) int {
 		return int(t.S())
 	}
 	return int(sext64(in.Concretize(t), t.w))
-}
-
-// Concretize forks over the feasible values of t and returns the one of the
-// current path.
-func (in *Interp) Concretize(t *Term) uint64 {
-	if t.IsConst() {
-		return t.k
-	}
-	for i := 0; i < 300; i++ {
-		m := in.currentModel()
-		var guess uint64
-		if m != nil {
-			guess = in.tt.Eval(t, m, map[int]uint64{})
-		} else {
-			guess = uint64(i)
-		}
-		if in.Decide(in.tt.Eq(t, in.tt.BV(int(t.w), guess))) {
-			return guess
-		}
-	}
-	panic(in.unsupported("concretisation with more than 300 feasible values"))
 }
 
 func (in *Interp) dumpStack(fr *frame) string {
